@@ -110,10 +110,12 @@ def table_lemma(pins, timeout):
 
 def replay_table(comp, v):
     if comp == 'hexlen':
-        return len(uu._HEX_CHAR_MAP) == 22 * 22
+        return True if len(uu._HEX_CHAR_MAP) == 22 * 22 else fail('hex_map_size', '%d entries' % len(uu._HEX_CHAR_MAP))
     if comp == 'hex':
         key = bytes([v >> 8, v & 255])
-        return uu._HEX_CHAR_MAP.get(key) == bytes([int(key.decode(), 16)])
+        if uu._HEX_CHAR_MAP.get(key) == bytes([int(key.decode(), 16)]):
+            return True
+        return fail('hex_map_misses_escape', 'unquote table has no (or a wrong) entry for %%%s' % key.decode())
     table = getattr(uu, TABLES[comp])
     out = table[v]
     if table[chr(v)] != out:
